@@ -264,7 +264,9 @@ def random_damage(res, ctx, rng, idx):
                         break
             if bad:
                 aligned = kind == "cutout" and all(int(x) % BLOCK == 0 for x in seg_ops[1].split()[3:5])
-                if res.violation(bad, {"ops": setup + seg_ops}, key=("crc-valid-chunks-recombined" if aligned and " served " in bad else None)):
+                jbad = next((j for j, (op, out) in enumerate(zip(seg_ops, seg_out)) if op == "dump" and served_ok(out, hist)), None)
+                same = mo is not None and jbad is not None and mo[a + jbad] == seg_out[jbad]
+                if res.violation(bad, {"ops": setup + seg_ops}, key=("crc-valid-chunks-recombined" if aligned and " served " in bad and same else None)):
                     break
                 continue
             if mo is not None:
@@ -372,11 +374,23 @@ def check_structural(res, ctx, rng):
         cases.append(("missing-block", "orig", cfgs, ["cutout w 000000000.data %d %d" % (b * BLOCK, BLOCK)]))
     for b in range(1, nblk - 1):
         cases.append(("swapped-full-chunks", "orig", cfgs, ["swapblk w 000000000.data %d %d %d" % (b * BLOCK, (b + 1) * BLOCK, BLOCK)]))
+    nb = nblk + 1
+    pairs = [(x, y) for x in range(nb) for y in range(nb) if x != y]
+    rng.shuffle(pairs)
+    for x, y in pairs[:6]:
+        cases.append(("block-copied", "orig", cfgs, ["cpblk w 000000000.data %d %d %d" % (x * BLOCK, y * BLOCK, BLOCK)]))
     ops = setup + setup2
     spans = []
     for name, src, c, dmg in cases:
         seg = ["cpdir %s w" % src] + dmg + ["open w " + c, "get 6b", "dump", "fold", "merge", "close", "rmdir w", "rmdir w-merge"]
         spans.append((len(ops), len(ops) + len(seg), name))
+        ops += seg
+    # the same kinds of damage while the database is OPEN: the file was validated by the scan at Open, later reads go through the
+    # position-based read path only
+    for x, y in pairs[:6]:
+        seg = ["cpdir orig w", "open w " + cfgs, "cpblk w 000000000.data %d %d %d" % (x * BLOCK, y * BLOCK, BLOCK), "get 6b", "dump", "fold", "close",
+               "rmdir w"]
+        spans.append((len(ops), len(ops) + len(seg), "block-copied/while-open"))
         ops += seg
     base = ctx.scratch.fresh()
     try:
@@ -400,8 +414,12 @@ def check_structural(res, ctx, rng):
                     bad = msg + " after %s (%s): every chunk checksum is valid" % (name, seg_ops[1])
                     break
         if bad:
-            # whole blocks changed places or are missing and every remaining chunk is intact: the recorded format weakness
-            key = "crc-valid-chunks-recombined" if name in ("swapped-full-chunks", "missing-block") and " served " in bad else None
+            # whole blocks changed places / are missing / were duplicated and every remaining chunk is intact: the recorded format
+            # weakness - but ONLY where the byte-exact model (exact-length rule of the repaired reader) serves the very same bytes;
+            # anything the code serves beyond that is a violation
+            jbad = next((j for j, (op, out) in enumerate(zip(seg_ops, seg_out)) if op == "dump" and served_ok(out, hist)), None)
+            same = mo is not None and jbad is not None and mo[a + jbad] == seg_out[jbad]
+            key = "crc-valid-chunks-recombined" if name.split("/")[0] in ("swapped-full-chunks", "missing-block", "block-copied") and " served " in bad and same else None
             if res.violation(bad, {"ops": (setup if "orig2" not in seg_ops[0] else setup2) + seg_ops}, key=key):
                 break
             continue
